@@ -248,38 +248,42 @@ func parent(spec *Spec, tier string, seed uint64, vdir, only string, limit int) 
 				agg.Sets[k][e] = true
 			}
 		}
+		var rest []Violation
+		for _, v := range r.Violations {
+			if k := matchKnown(known, v); k != nil {
+				knownSeen[k.Class+" @ "+k.Site+" — "+k.What]++
+			} else {
+				rest = append(rest, v)
+			}
+		}
+		knownOnly := len(r.Violations) > 0 && len(rest) == 0
 		switch {
-		case len(r.Violations) > 0:
+		case len(rest) > 0:
 			if oc.Case >= 0 {
 				agg.Violated++
 				pa.Violated++
 			}
-			var rest []Violation
-			for _, v := range r.Violations {
-				if k := matchKnown(known, v); k != nil {
-					knownSeen[k.Class+" @ "+k.Site+" — "+k.What]++
-				} else {
-					rest = append(rest, v)
+			sig := rest[0].Class + " @ " + rest[0].Site
+			sigCount[sig]++
+			if sigCount[sig] <= 3 && len(unlisted) < 40 {
+				os.MkdirAll(replayDir, 0o755)
+				p := filepath.Join(replayDir, fmt.Sprintf("%s-%d-%s-%d.json", tier, seed, oc.Phase, oc.Case))
+				rf := replayFile{Property: spec.ID, Tier: tier, Seed: seed, Phase: oc.Phase, Case: oc.Case, Notes: oc.Notes, Death: oc.Death, Violations: rest}
+				if ph := findPhase(spec, oc.Phase); ph != nil {
+					rf.Race = ph.Race
 				}
-			}
-			if len(rest) > 0 {
-				sig := rest[0].Class + " @ " + rest[0].Site
-				sigCount[sig]++
-				if sigCount[sig] <= 3 && len(unlisted) < 40 {
-					os.MkdirAll(replayDir, 0o755)
-					p := filepath.Join(replayDir, fmt.Sprintf("%s-%d-%s-%d.json", tier, seed, oc.Phase, oc.Case))
-					rf := replayFile{Property: spec.ID, Tier: tier, Seed: seed, Phase: oc.Phase, Case: oc.Case, Notes: oc.Notes, Death: oc.Death, Violations: rest}
-					if ph := findPhase(spec, oc.Phase); ph != nil {
-						rf.Race = ph.Race
-					}
-					if oc.Case < 0 {
-						rf.BatchFrom, rf.BatchTo = -oc.Case-1, oc.Res.rangeTo
-					}
-					b, _ := json.MarshalIndent(rf, "", " ")
-					os.WriteFile(p, b, 0o644)
-					unlisted = append(unlisted, vrec{oc, p})
+				if oc.Case < 0 {
+					rf.BatchFrom, rf.BatchTo = -oc.Case-1, oc.Res.rangeTo
 				}
+				b, _ := json.MarshalIndent(rf, "", " ")
+				os.WriteFile(p, b, 0o644)
+				unlisted = append(unlisted, vrec{oc, p})
 			}
+		case knownOnly:
+			// the case refuted the property only through a listed known finding: everything
+			// else the oracle checked on it held
+			agg.KnownOnly++
+			pa.KnownOnly++
 		case r.Inconclusive != "":
 			agg.Inconclusive++
 			pa.Inconclusive++
@@ -292,7 +296,7 @@ func parent(spec *Spec, tier string, seed uint64, vdir, only string, limit int) 
 			agg.Held++
 			pa.Held++
 		}
-		if r.Nontrivial && len(r.Violations) == 0 && r.Inconclusive == "" {
+		if r.Nontrivial && len(rest) == 0 && r.Inconclusive == "" {
 			agg.Distinct[hashStr(oc.Phase+"|"+r.Sig)] = true
 		}
 		if r.Sample != nil && len(samples) < 6 && (r.Nontrivial || len(samples) < 2) {
@@ -373,15 +377,16 @@ func parent(spec *Spec, tier string, seed uint64, vdir, only string, limit int) 
 	// evidence
 	wall := time.Since(t0).Seconds()
 	cov := map[string]any{
-		"evaluations":         agg.Evaluations,
-		"distinct_nontrivial": len(agg.Distinct),
-		"rule":                spec.Rule,
-		"samples":             samples,
-		"held":                agg.Held,
-		"violated_cases":      agg.Violated,
-		"inconclusive":        agg.Inconclusive,
-		"phases":              agg.PerPhase,
-		"observed":            agg.Counters,
+		"evaluations":                    agg.Evaluations,
+		"distinct_nontrivial":            len(agg.Distinct),
+		"rule":                           spec.Rule,
+		"samples":                        samples,
+		"held":                           agg.Held,
+		"held_apart_from_known_findings": agg.KnownOnly,
+		"violated_cases":                 agg.Violated,
+		"inconclusive":                   agg.Inconclusive,
+		"phases":                         agg.PerPhase,
+		"observed":                       agg.Counters,
 	}
 	if len(agg.InconReasons) > 0 {
 		cov["inconclusive_reasons"] = agg.InconReasons
@@ -392,7 +397,7 @@ func parent(spec *Spec, tier string, seed uint64, vdir, only string, limit int) 
 	sets := map[string]any{}
 	for k, s := range agg.Sets {
 		e := map[string]any{"count": len(s)}
-		if len(s) <= 48 {
+		if len(s) <= 160 {
 			var l []string
 			for x := range s {
 				l = append(l, x)
@@ -432,8 +437,8 @@ func parent(spec *Spec, tier string, seed uint64, vdir, only string, limit int) 
 		b, _ := json.MarshalIndent(ev, "", " ")
 		os.WriteFile(filepath.Join(outDir, "evidence", spec.ID+".json"), append(b, '\n'), 0o644)
 	}
-	fmt.Printf("%s %s seed=%d: %d cases (%d held, %d violated, %d inconclusive), %d distinct non-trivial, %.1fs, exit %d\n",
-		spec.ID, tier, seed, agg.Evaluations, agg.Held, agg.Violated, agg.Inconclusive, len(agg.Distinct), wall, exit)
+	fmt.Printf("%s %s seed=%d: %d cases (%d held, %d known-finding only, %d violated, %d inconclusive), %d distinct non-trivial, %.1fs, exit %d\n",
+		spec.ID, tier, seed, agg.Evaluations, agg.Held, agg.KnownOnly, agg.Violated, agg.Inconclusive, len(agg.Distinct), wall, exit)
 	var ck []string
 	for k, v := range agg.Counters {
 		ck = append(ck, fmt.Sprintf("%s=%d", k, v))
@@ -443,7 +448,11 @@ func parent(spec *Spec, tier string, seed uint64, vdir, only string, limit int) 
 	}
 	sort.Strings(ck)
 	if len(ck) > 0 {
-		fmt.Printf("  observed: %s\n", strings.Join(ck, " "))
+		line := strings.Join(ck, " ")
+		if len(line) > 700 && os.Getenv("VERIF_VERBOSE") == "" {
+			line = line[:700] + fmt.Sprintf(" … (%d observations; all of them are in the evidence file)", len(ck))
+		}
+		fmt.Printf("  observed: %s\n", line)
 	}
 	return exit
 }
